@@ -896,7 +896,9 @@ func verifyHash256(quote *pb.QuoteV4) error {
 	qeAuthData := qeReportCertificationData.GetQeAuthData().GetData()
 	attestKey := quote.GetSignedData().GetEcdsaAttestationKey()
 
-	concatOfAttestKeyandQeAuthData := append(attestKey, qeAuthData...)
+	// Concatenate into a fresh buffer: appending to attestKey would write into the spare capacity
+	// behind that field of the caller's quote.
+	concatOfAttestKeyandQeAuthData := append(append(make([]byte, 0, len(attestKey)+len(qeAuthData)), attestKey...), qeAuthData...)
 	var hashedMessage []byte
 	hashedConcatOfAttestKeyandQeAuthData := sha256.Sum256(concatOfAttestKeyandQeAuthData)
 	hashedMessage = hashedConcatOfAttestKeyandQeAuthData[:]
